@@ -26,6 +26,10 @@ type Hier struct {
 	CS        [][NS]int // 0 = not declared, 1 = declared, 2 = declared and chains to parent::
 	IM        [][NM]bool
 	Arity     [][NM]int // per type node (classes first, then interfaces) and method name
+	// Vis: visibility of each class's own declaration of mj (0 public, 1 protected, 2 private).
+	// Overrides never narrow a non-private declaration; a private declaration is not
+	// overridable, a same-named method below it is an independent method.
+	Vis [][NM]int
 	// ArB: parameter counts used by the `like` script only. Starts as Arity and then lets
 	// overrides / implementations change the count (more or fewer parameters) — origami does not
 	// enforce signature compatibility, and `like` must follow the most-derived definition.
@@ -263,7 +267,108 @@ func (h *Hier) finish(r *rand.Rand) {
 			}
 		}
 	}
+	// visibilities (drawn last so that the other draws stay what they were)
+	h.Vis = make([][NM]int, h.NC)
+	for c := 0; c < h.NC; c++ {
+		for j := 0; j < NM; j++ {
+			if h.CM[c][j] == 0 {
+				continue
+			}
+			// a method name that an interface implemented anywhere in this class tree declares
+			// stays public in the whole tree
+			forced := false
+			for y := 0; y < h.NC && !forced; y++ {
+				if h.root(y) != h.root(c) {
+					continue
+				}
+				for i := 0; i < h.NI; i++ {
+					if h.sub[y][h.inode(i)] && h.IM[i][j] {
+						forced = true
+					}
+				}
+			}
+			v := []int{0, 0, 1, 1, 2}[r.Intn(5)]
+			if forced {
+				v = 0
+			} else if p := h.Parent[c]; p >= 0 {
+				if d := h.provides(p, j); d >= 0 && h.Vis[d][j] != 2 {
+					// overriding a non-private method: same or wider visibility
+					if h.Vis[d][j] == 0 || v == 2 {
+						v = h.Vis[d][j]
+					} else if r.Intn(3) == 0 {
+						v = 0
+					} else {
+						v = 1
+					}
+				}
+			}
+			h.Vis[c][j] = v
+		}
+	}
+	// parent::mj() needs a non-private definition above
+	for c := 0; c < h.NC; c++ {
+		for j := 0; j < NM; j++ {
+			if h.CM[c][j] == 2 {
+				if d := h.provides(h.Parent[c], j); d < 0 || h.Vis[d][j] == 2 {
+					h.CM[c][j] = 1
+				}
+			}
+		}
+	}
 }
+
+// resolve is the reference dispatch of `$recv->mj()` executed by code written in class s
+// (-1: outside any class) on a receiver of runtime class y: the class whose body runs, and
+// whether the call is within what this check asserts (accessible by the PHP rules; protected
+// access only asserted when s and y lie on one extends chain).
+func (h *Hier) resolve(s, y, j int) (int, bool) {
+	f := h.provides(y, j) // nearest declaration, private ones included
+	if f < 0 {
+		return -1, false
+	}
+	if s >= 0 && f == s {
+		return f, true
+	}
+	// code of s calling a name that s itself declares private: private methods are not
+	// overridable, so s's own body runs for every descendant object
+	if s >= 0 && h.CM[s][j] != 0 && h.Vis[s][j] == 2 && h.dist(y, s) > 0 {
+		return s, true
+	}
+	switch h.Vis[f][j] {
+	case 0:
+		return f, true
+	case 1:
+		if s >= 0 && (h.dist(y, s) >= 0 || h.dist(s, y) >= 0) {
+			// the root declaration of this override chain must be related to s; on one chain
+			// with y: s below or at the root declaration, or above it
+			root := f
+			for a := h.Parent[f]; a >= 0; a = h.Parent[a] {
+				if h.CM[a][j] != 0 {
+					if h.Vis[a][j] == 2 {
+						break
+					}
+					root = a
+				}
+			}
+			if h.dist(s, root) >= 0 || h.dist(root, s) >= 0 {
+				return f, true
+			}
+		}
+	}
+	return -1, false
+}
+
+// allPublic: every declaration of mj on y's chain is public.
+func (h *Hier) allPublic(y, j int) bool {
+	for c := y; c >= 0; c = h.Parent[c] {
+		if h.CM[c][j] != 0 && h.Vis[c][j] != 0 {
+			return false
+		}
+	}
+	return true
+}
+
+var visName = []string{"public", "protected", "private"}
 
 func (h *Hier) declares(t, j int) bool {
 	if t < h.NC {
@@ -285,7 +390,7 @@ func (h *Hier) structKey() string {
 }
 
 func (h *Hier) fullKey() string {
-	return fmt.Sprintf("%s|%v|%v|%v|%v|%v|%v|%v", h.structKey(), h.Abstract, h.ThrowRoot, h.CM, h.CS, h.IM, h.Arity, h.ArB)
+	return fmt.Sprintf("%s|%v|%v|%v|%v|%v|%v|%v|%v", h.structKey(), h.Abstract, h.ThrowRoot, h.CM, h.CS, h.IM, h.Arity, h.ArB, h.Vis)
 }
 
 func (h *Hier) describe() string {
@@ -331,7 +436,7 @@ func (h *Hier) describe() string {
 		sb.WriteString(" {")
 		for j := 0; j < NM; j++ {
 			if h.CM[c][j] != 0 {
-				fmt.Fprintf(&sb, " m%d/%d", j, h.Arity[c][j])
+				fmt.Fprintf(&sb, " %sm%d/%d", []string{"", "protected:", "private:"}[h.Vis[c][j]], j, h.Arity[c][j])
 				if h.ArB != nil && h.ArB[c][j] != h.Arity[c][j] {
 					fmt.Fprintf(&sb, "(like-script:%d)", h.ArB[c][j])
 				}
